@@ -97,7 +97,7 @@ class HostKeys(MutableMapping):
                     continue
                 if entry is not None:
                     _hostnames = entry.hostnames
-                    for h in _hostnames:
+                    for h in list(_hostnames):
                         if self.check(h, entry.key):
                             entry.hostnames.remove(h)
                     if len(entry.hostnames):
